@@ -361,8 +361,13 @@ def _malformed(rng):
         o.setdefault("labella", {})
         if not isinstance(o["labella"], dict):
             o["labella"] = {}
+        # the model rejects an unknown algorithm when the options are read; the code only when the
+        # distributor has to split (distributor.py:62-71), so the case makes it split: bounds
+        # [0, 50] with 90 units of labels
         o["labella"]["algorithm"] = "greedy"
+        o["labella"]["minPos"] = 0
         o["labella"]["maxPos"] = 50
+        o["labella"].pop("density", None)
     elif kind == "empty_colour_list":
         o[rng.choice(COLOURS[:4])] = []
     else:
